@@ -205,10 +205,6 @@ def handleLine (line : String) : String :=
         let r1 := r.dropWhile (fun c => c = 32 || c = 9)
         if r1.isEmpty || r1.head? == some 35 then ("ok " ++ annsStr l).trimAscii.toString else "other"
       | none => "other"
-  | ["U", h] =>
-    match VL.hexDecode h with
-    | some s => "ok " ++ VL.hexEncode (htmlUnescape s)
-    | none => "bad-op"
   | _ => "bad-op"
 
 end Driver.C17
